@@ -359,6 +359,16 @@ func replayNative(ov *Overlay, work string, pkgDirRel string, runs []replayRun, 
 	return out, logs.String(), nil
 }
 
+// nativeFails: the native trace ends in a failed assertion, an escaped panic
+// or a budget overrun.
+func nativeFails(tr []string) bool {
+	if len(tr) == 0 {
+		return false
+	}
+	last := tr[len(tr)-1]
+	return strings.HasPrefix(last, "A-:") || last == "PANIC" || last == "BUDGET"
+}
+
 func sameTrace(a, b []string) bool {
 	if len(a) != len(b) {
 		return false
@@ -645,6 +655,16 @@ func checkMain(id, tier string) int {
 					if m.isViolation {
 						confirmedV = append(confirmedV, confirmed{V: m.v, Native: o.Trace, Params: m.params})
 					}
+				} else if m.isViolation && nativeFails(o.Trace) {
+					// the engine predicted a violation and the native build fails an
+					// assertion / panics on the same input, though not at the predicted
+					// event (e.g. a slice that overruns its length panics in the engine
+					// but reads allocator slack natively and fails the next assertion):
+					// the native failure is what is reported.
+					validated++
+					v := m.v
+					v.Msg = v.Msg + " [native build fails with: " + o.Trace[len(o.Trace)-1] + "]"
+					confirmedV = append(confirmedV, confirmed{V: v, Native: o.Trace, Params: m.params})
 				} else {
 					what := "path witness"
 					if m.isViolation {
